@@ -64,7 +64,7 @@ def env():
 
         preds = {
             "even": lambda v: isinstance(v, int) and v % 2 == 0,
-            "nonempty_str": lambda v: isinstance(v, str) and len(v) > 0,
+            "nonempty_str": lambda v: (isinstance(v, str) and len(v) > 0) or None,  # (answers None, not False, like re.fullmatch)
             "nonempty_dict": lambda v: isinstance(v, dict) and len(v) > 0,
         }
         vtypes = {k: validated(f, name=k) for k, f in preds.items()}
